@@ -136,6 +136,10 @@ namespace c14 {
     };
     inline unsigned bit( int op ) { return 1u << op; }
 
+    enum Flavor { FL_HP, FL_RCU, FL_NOGC };
+    enum ListKind { LK_PLAIN, LK_ITER, LK_FELDMAN };
+    inline long P( std::vector<long> const& cfg, size_t i, long dflt ) { return cfg.size() > i ? cfg[i] : dflt; }
+
     // one executed operation as the adapter reports it
     struct Done {
         std::string op;     // specification operation ("insert 3", "update 3 7 1", ...)
